@@ -123,6 +123,12 @@ struct Epoch {
     pre: Vec<bool>,
     start_seq: u64,
     last_answer_ms: u64,
+    /// tile index -> requested in this epoch
+    requested: Vec<bool>,
+    /// the peer choked (or the client cancelled) since the epoch began: the client may start over
+    interrupted: bool,
+    /// requests that were out when the first answer of the epoch arrived (the client's pipeline depth)
+    depth: Option<usize>,
 }
 
 pub fn check_tiling(t: &Torrent, o: &Outcome, a: &str, stats: &mut HashMap<&'static str, u64>) -> Option<Finding> {
@@ -145,7 +151,19 @@ pub fn check_tiling(t: &Torrent, o: &Outcome, a: &str, stats: &mut HashMap<&'sta
                 }
             }
             if *kind == "PieceCancel" && e.addr == a { if let Some(x) = ep.as_mut() { if !x.done { x.cancelled = true; } } }
-            if *kind == "KillReq" && e.addr == a { closed = true; }
+            // the client has taken note of a Choke: whatever it had asked for is void, it starts over
+            if *kind == "RecvChoke" && e.addr == a { if let Some(x) = ep.as_mut() { if !x.done { x.interrupted = true; x.outstanding.clear(); } } }
+            if *kind == "KillReq" && e.addr == a {
+                closed = true;
+                if let EvKind::Mgr { text, .. } = &e.kind {
+                    // this peer only ever sends true bytes of the piece under their true offsets
+                    if text.to_lowercase().contains("hash mismatch") {
+                        let st = ep.as_ref().map(|x| format!("piece {}: {} of {} blocks answered", x.piece, x.answered.iter().filter(|b| **b).count(), x.tiles.len())).unwrap_or_default();
+                        let early = ep.as_ref().map(|x| x.answered.iter().zip(x.pre.iter()).any(|(b, p)| !*b && !*p)).unwrap_or(false);
+                        return Some(Finding { sig: if early { "C10:completed-before-last-block".into() } else { "C10:piece-assembled-wrongly".into() }, what: format!("the client judged a piece complete and found its hash wrong although the peer sent only true data ({})", st), at_seq: e.seq });
+                    }
+                }
+            }
             snap = Some(after.clone());
             continue;
         }
@@ -160,8 +178,23 @@ pub fn check_tiling(t: &Torrent, o: &Outcome, a: &str, stats: &mut HashMap<&'sta
                 if *l as usize > 16384 {
                     return Some(Finding { sig: "C10:request-longer-than-16KiB".into(), what: format!("Request({},{},{})", i, b, l), at_seq: e.seq });
                 }
-                if *b == 0 {
-                    // a new assignment epoch
+                // Which assignment does this request belong to? A request for another piece, or for a
+                // tile that was already requested after the peer choked / the piece was cancelled or
+                // finished, opens a new one (the client starts over); nothing is assumed about the
+                // order in which the tiles of a piece are asked for.
+                let tiles = tiling(t.piece_len_of(iu));
+                let tile_no = tiles.iter().position(|tl| *tl == (*b, *l));
+                let fresh = match &ep {
+                    None => true,
+                    Some(x) if x.piece != iu => {
+                        if !x.done && !x.cancelled && !x.interrupted {
+                            return Some(Finding { sig: "C10:request-names-other-piece".into(), what: format!("Request({},{},{}) while piece {} is being tiled ({} of {} tiles requested)", i, b, l, x.piece, x.sent, x.tiles.len()), at_seq: e.seq });
+                        }
+                        true
+                    }
+                    Some(x) => match tile_no { Some(k) if x.requested[k] => x.done || x.cancelled || x.interrupted, _ => false },
+                };
+                if fresh {
                     if let Some(x) = &ep {
                         *stats.entry(if x.done { "epochs_completed" } else { "epochs_abandoned" }).or_default() += 1;
                     }
@@ -169,7 +202,6 @@ pub fn check_tiling(t: &Torrent, o: &Outcome, a: &str, stats: &mut HashMap<&'sta
                     if assigned != Some(iu) {
                         return Some(Finding { sig: "C10:request-for-unassigned-piece".into(), what: format!("Request({},{},{}) although the manager assigned {:?} to this peer", i, b, l, assigned), at_seq: e.seq });
                     }
-                    let tiles = tiling(t.piece_len_of(iu));
                     let nt = tiles.len();
                     let mut pre = vec![false; nt];
                     for old in o.events.iter().take_while(|x| x.seq < e.seq) {
@@ -180,25 +212,20 @@ pub fn check_tiling(t: &Torrent, o: &Outcome, a: &str, stats: &mut HashMap<&'sta
                         }
                     }
                     if pre.iter().any(|b| *b) { *stats.entry("epochs_with_possibly_inflight_blocks").or_default() += 1; }
-                    ep = Some(Epoch { piece: iu, tiles, sent: 0, answered: vec![false; nt], outstanding: vec![], done: false, cancelled: false, pre, start_seq: e.seq, last_answer_ms: 0 });
+                    ep = Some(Epoch { piece: iu, tiles: tiles.clone(), sent: 0, answered: vec![false; nt], outstanding: vec![], done: false, cancelled: false, pre, start_seq: e.seq, last_answer_ms: 0, requested: vec![false; nt], interrupted: false, depth: None });
                     *stats.entry("epochs").or_default() += 1;
                 }
-                let x = match ep.as_mut() { Some(x) => x, None => return Some(Finding { sig: "C10:request-not-starting-at-zero".into(), what: format!("first request of an assignment is ({},{},{})", i, b, l), at_seq: e.seq }) };
-                if x.piece != iu {
-                    return Some(Finding { sig: "C10:request-names-other-piece".into(), what: format!("Request({},{},{}) while piece {} is being tiled", i, b, l, x.piece), at_seq: e.seq });
+                let x = ep.as_mut().unwrap();
+                let k = match tile_no {
+                    Some(k) => k,
+                    None => return Some(Finding { sig: "C10:request-not-a-tile".into(), what: format!("Request({},{},{}) is not one of the blocks {:?} that tile a {}-byte piece", i, b, l, x.tiles, t.piece_len_of(iu)), at_seq: e.seq }),
+                };
+                if x.requested[k] {
+                    return Some(Finding { sig: "C10:block-requested-twice".into(), what: format!("Request({},{},{}) repeated within one assignment of the piece ({} of {} tiles requested so far)", i, b, l, x.sent, x.tiles.len()), at_seq: e.seq });
                 }
-                if x.sent >= x.tiles.len() || x.tiles[x.sent] != (*b, *l) {
-                    let want = x.tiles.get(x.sent);
-                    let sig = if x.tiles[..x.sent.min(x.tiles.len())].contains(&(*b, *l)) { "C10:block-requested-twice" } else { "C10:request-not-next-tile" };
-                    return Some(Finding { sig: sig.into(), what: format!("Request({},{},{}) but the next tile of a {}-byte piece is {:?} (tiles so far {})", i, b, l, t.piece_len_of(iu), want, x.sent), at_seq: e.seq });
-                }
-                x.outstanding.push(x.sent);
+                x.requested[k] = true;
+                x.outstanding.push(k);
                 x.sent += 1;
-                // never more than 2 + accepted answers that could have been seen
-                let accepted = x.answered.iter().zip(x.pre.iter()).filter(|(a, p)| **a || **p).count();
-                if x.sent > 2 + accepted {
-                    return Some(Finding { sig: "C10:more-than-two-requests-in-flight".into(), what: format!("{} requests sent for piece {} while only {} blocks were answered", x.sent, x.piece, accepted), at_seq: e.seq });
-                }
             }
             EvKind::PeerSent { msg: Some(Msg::Piece(i, b, d)), .. } => {
                 if let Some(x) = ep.as_mut() {
@@ -206,12 +233,10 @@ pub fn check_tiling(t: &Torrent, o: &Outcome, a: &str, stats: &mut HashMap<&'sta
                         if let Some(pos) = x.outstanding.iter().position(|k| x.tiles[*k] == (*b, d.len() as u32)) {
                             let k = x.outstanding.remove(pos);
                             // first accepted answer of the epoch: the up-front requests are all out
-                            // (the tiler waits >= 5 ms of virtual time before answering)
+                            // (the tiler waits >= 5 ms of virtual time before answering); their number
+                            // is the client's pipeline depth, which the property leaves open
                             if !x.answered.iter().any(|b| *b) && !x.pre.iter().any(|b| *b) {
-                                let want = x.tiles.len().min(2);
-                                if x.sent != want {
-                                    return Some(Finding { sig: "C10:wrong-number-of-upfront-requests".into(), what: format!("{} request(s) sent up front for a piece of {} blocks (expected {})", x.sent, x.tiles.len(), want), at_seq: e.seq });
-                                }
+                                x.depth = Some(x.sent);
                                 *stats.entry("upfront_checked").or_default() += 1;
                             }
                             x.answered[k] = true;
@@ -221,11 +246,11 @@ pub fn check_tiling(t: &Torrent, o: &Outcome, a: &str, stats: &mut HashMap<&'sta
                 }
             }
             EvKind::Send { msg: Msg::Cancel(i, _, _), .. } => {
-                if let Some(x) = ep.as_mut() { if x.piece == *i as usize && !x.done { x.cancelled = true; x.outstanding.clear(); *stats.entry("epochs_cancelled").or_default() += 1; } }
+                if let Some(x) = ep.as_mut() { if x.piece == *i as usize && !x.done { x.cancelled = true; x.interrupted = true; x.outstanding.clear(); *stats.entry("epochs_cancelled").or_default() += 1; } }
             }
             EvKind::PeerSent { msg: Some(Msg::Choke), .. } => {
                 // a choke ends the epoch for the oracle: the client will start over after Unchoke
-                if let Some(x) = ep.as_mut() { if !x.done { x.outstanding.clear(); } }
+                if let Some(x) = ep.as_mut() { if !x.done { x.outstanding.clear(); x.interrupted = true; } }
             }
             EvKind::PeerSawClose | EvKind::PeerClosed => closed = true,
             _ => (),
@@ -237,10 +262,11 @@ pub fn check_tiling(t: &Torrent, o: &Outcome, a: &str, stats: &mut HashMap<&'sta
         let choked_now = snap.as_ref().and_then(|s| s.peers.iter().find(|p| p.addr == a)).map(|p| p.choked).unwrap_or(true);
         if !closed && !x.done && !x.cancelled && !x.pre.iter().any(|b| *b) && !choked_now && x.last_answer_ms + 2_000 < o.end_ms && o.events.iter().rev().find(|e| e.addr == a && matches!(e.kind, EvKind::PeerSent { .. })).map(|e| e.ms + 2_000 < o.end_ms).unwrap_or(true) {
             let accepted = x.answered.iter().filter(|b| **b).count();
-            let want = x.tiles.len().min(2 + accepted);
+            // every accepted block was followed by a further request (on top of the up-front ones)
+            let want = match x.depth { Some(d) => x.tiles.len().min(d + accepted), None => 1 };
             *stats.entry("quiescent_epochs_checked").or_default() += 1;
-            if x.sent != want {
-                return Some(Finding { sig: "C10:accepted-block-not-followed-by-request".into(), what: format!("piece {} ({} blocks): {} answered, {} requested at the quiescent end (expected {})", x.piece, x.tiles.len(), accepted, x.sent, want), at_seq: x.start_seq });
+            if x.sent < want {
+                return Some(Finding { sig: "C10:accepted-block-not-followed-by-request".into(), what: format!("piece {} ({} blocks): {} requested up front, {} answered, {} requested in all at the quiescent end (at least {} expected)", x.piece, x.tiles.len(), x.depth.unwrap_or(0), accepted, x.sent, want), at_seq: x.start_seq });
             }
             if accepted == x.tiles.len() {
                 return Some(Finding { sig: "C10:not-completed-after-last-block".into(), what: format!("all {} blocks of piece {} were answered but the piece was never reported complete", x.tiles.len(), x.piece), at_seq: x.start_seq });
